@@ -876,7 +876,7 @@ pub fn lookup_route<D: DictionaryAccess>(d: &D, stack: &[(u8, &Lex)]) -> Option<
         for r in &lex.rows {
             let key = r.surface.as_bytes();
             let got = catch(|| {
-                let mut v: Vec<u32> = d.lexicon().lookup(key, 0).filter(|e| e.end == key.len()).map(|e| e.word_id.as_raw()).collect();
+                let mut v: Vec<u32> = d.lexicon().lookup(key, 0).filter(|e| e.end as usize == key.len()).map(|e| e.word_id.as_raw()).collect();
                 v.sort();
                 v
             });
